@@ -15,6 +15,13 @@ if [ -n "${VERIF_ONLY:-}" ]; then
   TAGS="verif only only_$(echo "$VERIF_ONLY" | tr 'A-Z' 'a-z')"
   BIN=bin/vcheck-$VERIF_ONLY
 fi
+if [ "$REPO" != "/repo" ]; then
+  # a run against a scratch worktree gets its own binary and work directory, so
+  # that several of them (tools/reseedall.sh) can run side by side
+  sfx=$(echo "$REPO" | tr '/' '_')
+  BIN=$BIN$sfx
+  export VERIF_WORKDIR_SUFFIX=${VERIF_WORKDIR_SUFFIX:-$sfx}
+fi
 build() {
   cp "$REPO/go.sum" go.sum 2>/dev/null
   mkdir -p bin work
